@@ -93,22 +93,9 @@ func (c *controller) SetBalancer(l log.Logger, name string, svcRo *v1.Service, _
 		syncStateRes = controllers.SyncStateReprocessAll
 	}
 
-	if reflect.DeepEqual(svcRo, svc) {
-		level.Debug(l).Log("event", "noChange", "msg", "service converged, no change")
-		return syncStateRes
-	}
-
-	// Check for any deprecated annotations.
-	// Normally, we would check the svc object within convergeBalancer.
-	// However, generating an event every time the svc is processed would be very noisy.
-	// Therefore, we check for deprecated annotations only, if there is something to do.
-	for key := range svcRo.Annotations {
-		if strings.HasPrefix(key, DeprecatedAnnotationPrefix) {
-			level.Warn(l).Log("event", "deprecatedAnnotation", "annotation", key, "msg", "The used annotation is deprecated. Support might get removed in future versions")
-			c.client.Errorf(svcRo, "deprecatedAnnotation", "Service uses deprecated annotation %s", key)
-		}
-	}
-
+	// This must be decided even when the service object needs no update (for
+	// example a service deleted and recreated under the same name before its
+	// events were processed: the allocation is dropped but there is nothing to write).
 	// The IP(s) recorded in the status are checked too: when a previous attempt
 	// changed the allocation but failed to update the service, they are the
 	// ones that are being released now.
@@ -123,6 +110,22 @@ func (c *controller) SetBalancer(l log.Logger, name string, svcRo *v1.Service, _
 				level.Info(l).Log("event", "serviceUpdated", "msg", "removed loadbalancer from service, services will be reprocessed")
 				syncStateRes = controllers.SyncStateReprocessAll
 			}
+		}
+	}
+
+	if reflect.DeepEqual(svcRo, svc) {
+		level.Debug(l).Log("event", "noChange", "msg", "service converged, no change")
+		return syncStateRes
+	}
+
+	// Check for any deprecated annotations.
+	// Normally, we would check the svc object within convergeBalancer.
+	// However, generating an event every time the svc is processed would be very noisy.
+	// Therefore, we check for deprecated annotations only, if there is something to do.
+	for key := range svcRo.Annotations {
+		if strings.HasPrefix(key, DeprecatedAnnotationPrefix) {
+			level.Warn(l).Log("event", "deprecatedAnnotation", "annotation", key, "msg", "The used annotation is deprecated. Support might get removed in future versions")
+			c.client.Errorf(svcRo, "deprecatedAnnotation", "Service uses deprecated annotation %s", key)
 		}
 	}
 
